@@ -157,7 +157,7 @@ def check_maxtime_set_after_parse(g: List[float], N: int, twice: bool) -> bool:
 
 def check_bad_values_rejected(which: int, T: int) -> bool:
     """
-    pre: 0 <= which <= 8
+    pre: 0 <= which <= 13
     pre: 0 <= T <= 2
     post: _
     """
@@ -171,7 +171,13 @@ def check_bad_values_rejected(which: int, T: int) -> bool:
               "x = G + H\nexogenous\nH = G\nG = [1.,2.,3.]",
               "x = G + H\nL = x(k-1)\nx(0) = 7.\nexogenous\nG = [1.,2.,3.]\nH = 2.*x",
               "x = G + H\ny = 3.0\nexogenous\nG = [1.,2.,3.]\nH = [y, y, y]",
-              "x = G + H\nexogenous\nG = [1.,2.,3.]\nH = [k, k, k]")
+              "x = G + H\nexogenous\nG = [1.,2.,3.]\nH = [k, k, k]",
+              # an initial value that cannot be evaluated, stated for an exogenous / lagged / decorative variable
+              "x = G\nG(0) = undefined_name\nexogenous\nG = [1.,2.,3.]",
+              "x = G\nG(0) = 1./0.\nexogenous\nG = [1.,2.,3.]",
+              "x = G\nexogenous\nG = [1.,2.,3.]\nG(0) = [1., 2.]",
+              "x = G\nL = x(k-1)\nL(0) = undefined_name\nexogenous\nG = [1.,2.,3.]",
+              "x = G\nd = x + 1\nd(0) = 3. +\nexogenous\nG = [1.,2.,3.]")
     es = EquationSolver()
     es.MaxTime = T
     es.ParseString(blocks[which])
